@@ -62,12 +62,27 @@ def createFile (name : Bytes) (now : Nat) : St :=
 def createFileCfg (cfg : Cfg) (name : Bytes) (now : Nat) : Option St :=
   if cfg.rejectsLongName && 65535 < name.length then none else some (createFile name now)
 
-/-- `openExistingFile` -/
-def openExisting (file : Bytes) : Option Sess :=
+/-- the torn-tail walk of `openExistingFile`: total length of the leading blocks that are entirely
+    there (16-byte header + `CompressedSize` bytes each) -/
+def walkEnd : Nat → Bytes → Nat
+  | 0, _ => 0
+  | fuel + 1, rest =>
+    if shorterThan rest 16 then 0 else
+    let cs := unle (rest.take 4)
+    if shorterThan (rest.drop 16) cs then 0 else 16 + cs + walkEnd fuel (rest.drop (16 + cs))
+
+/-- `openExistingFile`: the session and the (possibly truncated) file.  A file too short for its
+    header or name is re-created by the code; the model does not follow that path (no state the
+    writer itself leaves behind has that shape) and reports `none`. -/
+def openExisting (cfg : Cfg) (file : Bytes) : Option (Bytes × Sess) :=
   if file.length < 64 then none else
   match decodeFileHeader (file.take 64) with
   | .error _ => none
-  | .ok h => some ⟨h, [], 0, 0, h.blockCount, h.entryCount⟩
+  | .ok h =>
+    if file.length < h.dataStart then none else
+    let file' := if cfg.openCutsTornTail
+      then file.take (h.dataStart + walkEnd (file.length / 16 + 1) (file.drop h.dataStart)) else file
+    some (file', ⟨h, [], 0, 0, h.blockCount, h.entryCount⟩)
 
 /-- in-place rewrite of the first 64 bytes -/
 def rewriteHeader (file : Bytes) (h : FileHeader) : Bytes := encodeFileHeader h ++ file.drop 64
@@ -122,9 +137,9 @@ def step (cfg : Cfg) (codec : Codec) (crc : Checksum) (bs : Nat) (st : St) (op :
     ({ file := f, sess := none }, .ok)
   | .reopen, some _ => (st, .rejOpen)    -- the harness never opens two writers on one file
   | .reopen, none =>
-    match openExisting st.file with
+    match openExisting cfg st.file with
     | none => (st, .rejHeader)
-    | some s => ({ st with sess := some s }, .ok)
+    | some (f, s) => ({ file := f, sess := some s }, .ok)
 
 def runOps (cfg : Cfg) (codec : Codec) (crc : Checksum) (bs : Nat) (st : St) (ops : List Op) : St :=
   ops.foldl (fun s o => (step cfg codec crc bs s o).1) st
